@@ -25,6 +25,7 @@ import (
 	"sort"
 	"strconv"
 	"strings"
+	"sync"
 	"time"
 
 	"verifharness/common"
@@ -48,6 +49,8 @@ type completion struct {
 type expect struct {
 	Tag    string
 	Status string // "" = any of OK/NO/BAD, otherwise alternatives separated by "|"
+	Alt    string // a second acceptable tag (lines whose "tag" contains bytes that RFC 3501 does not allow in a tag)
+	HasAlt bool
 }
 
 type stream struct {
@@ -59,6 +62,9 @@ type stream struct {
 	First  string   // weaker oracle: tag of the first completion after the login (used for the literal-size cases)
 	NoTags bool     // do not judge completions at all (raw TLS hello: the server closes by design)
 	Model  bool
+	// Lines (optional, concatenation = Data): send line by line and require the completion of line i (Expect[i]) to
+	// arrive WITHOUT any further input (10 s) before the next line is sent
+	Lines [][]byte
 }
 
 type outcome struct {
@@ -69,6 +75,7 @@ type outcome struct {
 	Spin        bool
 	Hang        bool
 	ConnErr     string
+	Withheld    int // 1-based index of the first line whose completion did not arrive before more input was sent; 0 = none
 }
 
 var reCompletion = regexp.MustCompile(`^([^ ]*) (OK|NO|BAD)( .*)?$`)
@@ -103,6 +110,12 @@ func parseResponses(raw []byte) []completion {
 
 // runStream sends the bytes and collects the output until the server closes the connection.
 func runStream(c *child, login bool, data []byte) outcome {
+	return runStreamSteps(c, login, [][]byte{data}, nil)
+}
+
+// runStreamSteps sends the pieces one after the other; when need[i] >= 0 it sends piece i+1 (or half-closes) only after
+// need[i] completions (not counting the login's) have arrived, waiting at most 10 s (then Withheld = i+1).
+func runStreamSteps(c *child, login bool, pieces [][]byte, need []int) outcome {
 	var o outcome
 	conn, err := net.DialTimeout("tcp", c.addr, 10*time.Second)
 	if err != nil {
@@ -114,29 +127,70 @@ func runStream(c *child, login bool, data []byte) outcome {
 	}
 	defer conn.Close()
 	tcp := conn.(*net.TCPConn)
-	payload := data
-	if login {
-		payload = append([]byte(loginLine), data...)
-	}
-	wdone := make(chan error, 1)
-	go func() {
-		tcp.SetWriteDeadline(time.Now().Add(60 * time.Second))
-		_, err := tcp.Write(payload)
-		tcp.CloseWrite()
-		wdone <- err
-	}()
-	rdone := make(chan struct{})
+	var mu sync.Mutex
 	var raw []byte
+	count := func() int {
+		mu.Lock()
+		defer mu.Unlock()
+		return len(parseResponses(raw))
+	}
+	rdone := make(chan struct{})
 	go func() {
 		buf := make([]byte, 65536)
 		for {
 			n, err := tcp.Read(buf)
+			mu.Lock()
 			raw = append(raw, buf[:n]...)
+			mu.Unlock()
 			if err != nil {
 				close(rdone)
 				return
 			}
 		}
+	}()
+	wdone := make(chan int, 1)
+	go func() {
+		withheld := 0
+		extra := 0
+		tcp.SetWriteDeadline(time.Now().Add(120 * time.Second))
+		if login {
+			tcp.Write([]byte(loginLine))
+			extra = 1
+			if len(need) > 0 { // line-by-line mode: the stream proper starts after the login has been answered
+				for dl := time.Now().Add(20 * time.Second); count() < 1 && time.Now().Before(dl); {
+					select {
+					case <-rdone:
+						dl = time.Now()
+					default:
+						time.Sleep(200 * time.Microsecond)
+					}
+				}
+			}
+		}
+		for i, p := range pieces {
+			if _, err := tcp.Write(p); err != nil {
+				break
+			}
+			if i < len(need) && need[i] >= 0 && withheld == 0 {
+				deadline := time.Now().Add(10 * time.Second)
+				for count() < need[i]+extra {
+					select {
+					case <-rdone:
+						deadline = time.Now()
+					default:
+					}
+					if time.Now().After(deadline) {
+						if count() < need[i]+extra {
+							withheld = i + 1
+						}
+						break
+					}
+					time.Sleep(200 * time.Microsecond)
+				}
+			}
+		}
+		tcp.CloseWrite()
+		wdone <- withheld
 	}()
 	// U2: the server must close after our half-close. A spinning parser is detected early by its CPU use.
 	waited := 0 * time.Second
@@ -166,6 +220,10 @@ func runStream(c *child, login bool, data []byte) outcome {
 		}
 	}
 	o.Closed = !o.Spin && !o.Hang
+	select {
+	case o.Withheld = <-wdone:
+	case <-time.After(15 * time.Second):
+	}
 	// strip the greeting
 	if i := bytes.Index(raw, []byte("\r\n")); i >= 0 && bytes.HasPrefix(raw, []byte("* OK")) {
 		raw = raw[i+2:]
@@ -184,6 +242,9 @@ func countLF(b []byte) int { return bytes.Count(b, []byte("\n")) }
 // working on the previous command: its completion can overtake earlier ones. The order is deterministic only when
 // STARTTLS is the very first line of the connection.
 func racyStartTLS(s stream) bool {
+	if len(s.Lines) > 0 {
+		return false // sent line by line, each completion awaited: no overtaking
+	}
 	low := bytes.ToLower(s.Data)
 	i := bytes.Index(low, []byte("starttls"))
 	if i < 0 {
@@ -269,6 +330,9 @@ func judge(s stream, o outcome) (string, string) {
 			return "COMPLETION", fmt.Sprintf("first completion must carry tag %q, got %s", s.First, compStr(cs))
 		}
 	}
+	if o.Withheld > 0 && s.Lined && !racyStartTLS(s) {
+		return "WITHHELD", fmt.Sprintf("the completion of line %d was not sent within 10 s although the line is complete; it needs further input from the client (completions so far: %s)", o.Withheld, compStr(cs))
+	}
 	if s.Lined {
 		if len(cs) != len(s.Expect) {
 			var w []string
@@ -278,7 +342,7 @@ func judge(s stream, o outcome) (string, string) {
 			return "COMPLETION", fmt.Sprintf("want %d completions [%s], got %s", len(s.Expect), strings.Join(w, ", "), compStr(cs))
 		}
 		for i, e := range s.Expect {
-			if cs[i].Tag != e.Tag {
+			if cs[i].Tag != e.Tag && !(e.HasAlt && cs[i].Tag == e.Alt) {
 				return "COMPLETION", fmt.Sprintf("completion %d: want tag %q, got %q %s (all: %s)", i+1, e.Tag, cs[i].Tag, cs[i].Status, compStr(cs))
 			}
 			if !statusOK(e.Status, cs[i].Status) {
@@ -307,7 +371,8 @@ func runC11(ctx *common.Ctx) error {
 	res := ctx.Res
 	rng := ctx.Rng
 	res.Rule = "byte streams sent to a server in a child process, before and after LOGIN: scripted defect shapes, every truncation point of valid commands, oversized numbers/literals, deep nesting (<= 64 KiB), EOF inside token/quoted/literal, binary garbage, raw TLS hello, random streams of valid and malformed lines (incl. >= 20 consecutive malformed); non-trivial = distinct streams that contain at least one malformed or incomplete command"
-	c, err := startChild()
+	tlsMode := false
+	c, err := startChild(false)
 	if err != nil {
 		return err
 	}
@@ -369,7 +434,7 @@ func runC11(ctx *common.Ctx) error {
 		if c.alive() {
 			c.kill()
 		}
-		nc, err := startChild()
+		nc, err := startChild(tlsMode)
 		if err != nil {
 			c = nil
 			return err
@@ -406,9 +471,10 @@ func runC11(ctx *common.Ctx) error {
 			st := map[string]int{"BAD": 0, "NO": 1, "OK": 2}[cp.Status]
 			obs[i] = fmt.Sprintf("(%s, %d)", common.CoqHex([]byte(cp.Tag)), st)
 		}
-		lines = append(lines, fmt.Sprintf("mkCase %d %s [%s]", nextID, common.CoqHex(data), strings.Join(obs, "; ")))
+		lines = append(lines, fmt.Sprintf("mkCase %d %s %s [%s]", nextID, common.CoqBool(tlsMode), common.CoqHex(data), strings.Join(obs, "; ")))
 	}
 
+	withheldSeen := 0
 	var one func(s stream, shrinkable bool) (string, outcome)
 	one = func(s stream, shrinkable bool) (string, outcome) {
 		pre := "pre-login"
@@ -416,8 +482,26 @@ func runC11(ctx *common.Ctx) error {
 			pre = "post-login"
 		}
 		ctx.Current(fmt.Sprintf("%s %s stream=%s", s.Name, pre, clip(s.Data, 300)), nil)
-		o := runStream(c, s.Login, s.Data)
+		var o outcome
+		if withheldSeen >= 3 && strings.HasPrefix(s.Name, "lines:") {
+			s.Lines = nil // enough evidence; do not spend 10 s per further random stream
+		}
+		if len(s.Lines) > 0 && s.Lined {
+			need := make([]int, len(s.Lines))
+			for i := range need {
+				need[i] = -1
+				if i < len(s.Expect) {
+					need[i] = i + 1
+				}
+			}
+			o = runStreamSteps(c, s.Login, s.Lines, need)
+		} else {
+			o = runStream(c, s.Login, s.Data)
+		}
 		kind, detail := judge(s, o)
+		if kind == "WITHHELD" {
+			withheldSeen++
+		}
 		if !o.Crash && !o.Spin && !o.Hang {
 			// U5 (and the way a crash that happened a moment ago becomes visible): always probe the second session
 			if msg := watcherOK(); msg != "" {
@@ -463,7 +547,7 @@ func runC11(ctx *common.Ctx) error {
 				tries++
 				cand := best
 				cand.Data = bytes.Join(append(append([][]byte{}, parts[:i]...), parts[i+1:]...), nil)
-				cand.Lined, cand.Expect, cand.First = false, nil, ""
+				cand.Lined, cand.Expect, cand.First, cand.Lines = false, nil, "", nil
 				if kind == "COMPLETION" || kind == "EXTRA-COMPLETIONS" || kind == "LOGIN" {
 					break
 				}
@@ -640,6 +724,45 @@ func runC11(ctx *common.Ctx) error {
 		s.Model = false
 	})
 
+	// ---------------------------------------------------------------- 1a. line by line, each completion without further input
+	// linesOf builds a stream that is sent line by line (see stream.Lines); one expectation per line
+	linesOf := func(name string, login bool, ls []string, exp []expect) stream {
+		st := stream{Name: name, Login: login, Model: true, Lined: true, Expect: exp}
+		for _, l := range ls {
+			st.Lines = append(st.Lines, []byte(l))
+			st.Data = append(st.Data, l...)
+		}
+		return st
+	}
+	alt := func(tag, other, status string) expect {
+		return expect{Tag: tag, Status: status, Alt: other, HasAlt: true}
+	}
+	// a backslash as the last character of a line inside a quoted string; escapes of ordinary characters
+	for _, login := range []bool{false, true} {
+		run(linesOf("script:backslash-at-end-of-line", login,
+			[]string{"a1 LOGIN \"x\\\r\n", "a2 NOOP\r\n", "a3 CREATE \"foo\\\r\n", "a4 LIST \"\" \"ab\\\r\n", "a5 SEARCH SUBJECT \"x\\\r\n",
+				"a6 LOGIN \"x\\y\" p\r\n", "a7 LOGIN \"x\\\r\n", "a8 NOOP\r\n"},
+			[]expect{e("a1", "BAD"), e("a2", "OK"), e("a3", "BAD"), e("a4", "BAD"), e("a5", "BAD"), e("a6", "BAD"), e("a7", "BAD"), e("a8", "OK")}))
+		// a complete command followed by junk: exactly one BAD with the tag and NO effect of the command
+		run(linesOf("script:trailing-garbage-no-effect", login,
+			[]string{"b1 STARTTLS now\r\n", "b2 NOOP\r\n", "b3 STARTTLS\rx\r\n", "b4 IDLE x\r\n", "b5 NOOP\r\n", "b6 LOGOUT x\r\n", "b7 NOOP\r\n",
+				"DONE x\r\n", "b8 CAPABILITY x\r\n", "b9 CHECK\rx\r\n", "c1 CLOSE x\r\n", "c2 EXPUNGE (\r\n", "c3 UNSELECT \"\r\n", "c4 NOOP\r\n"},
+			[]expect{e("b1", "BAD"), e("b2", "OK"), e("b3", "BAD"), e("b4", "BAD"), e("b5", "OK"), e("b6", "BAD"), e("b7", "OK"),
+				alt("", "DONE", "BAD"), e("b8", "BAD"), e("b9", "BAD"), e("c1", "BAD"), e("c2", "BAD"), e("c3", "BAD"), e("c4", "OK")}))
+	}
+	// every control byte in every lexical position: one completion per line, the session goes on
+	for _, b := range []byte{0, 1, 2, 3, 4, 5, 6, 7, 8, 9, 11, 12, 14, 15, 16, 17, 18, 19, 20, 21, 22, 23, 24, 25, 26, 27, 28, 29, 30, 31, 127} {
+		B := string([]byte{b})
+		ls := []string{B + "k1 NOOP\r\n", "k2" + B + "x NOOP\r\n", "k3 NO" + B + "OP\r\n", "k4 LOGIN u" + B + "x p\r\n", "k5 LOGIN \"u" + B + "x\" p\r\n",
+			"k6 LOGIN {1}\r\nu " + B + "p\r\n", "k7 FETCH 1" + B + " ALL\r\n", "k8 NOOP" + B + "\r\n", "k9 NOOP\r\n"}
+		exp := []expect{alt("", B+"k1", ""), alt("k2", "k2"+B+"x", ""), e("k3", "BAD"), e("k4", ""), e("k5", ""), e("k6", ""), e("k7", "BAD"), e("k8", "BAD"), e("k9", "OK")}
+		login := b%2 == 0
+		run(linesOf(fmt.Sprintf("script:control-byte-%02x", b), login, ls, exp))
+		if ctx.Tier == "thorough" {
+			run(linesOf(fmt.Sprintf("script:control-byte-%02x", b), !login, ls, exp))
+		}
+	}
+
 	// ---------------------------------------------------------------- 1b. SEARCH charsets (after SELECT: the handler decodes)
 	charsets := []string{"UTF-8", "US-ASCII", "utf-8", "ISO-8859-1", "windows-1252", "ISO-2022-JP", "KOI8-R", "GB18030", "UTF-16",
 		// known to the IANA index but not supported by x/text (Encoding returns nil without an error)
@@ -724,6 +847,25 @@ func runC11(ctx *common.Ctx) error {
 		}
 	}
 
+	// ---------------------------------------------------------------- 1d. a server WITH a TLS configuration
+	tlsMode = true
+	if err := restart(); err != nil {
+		return err
+	}
+	for _, login := range []bool{false, true} {
+		run(linesOf("tls:starttls-trailing-garbage", login,
+			[]string{"A001 STARTTLS now\r\n", "A002 NOOP\r\n", "A003 STARTTLS\rx\r\n", "A004 starttls (\r\n", "A005 CAPABILITY\r\n"},
+			[]expect{e("A001", "BAD"), e("A002", "OK"), e("A003", "BAD"), e("A004", "BAD"), e("A005", "OK")}))
+	}
+	// a well-formed STARTTLS is accepted; what follows is not IMAP any more (the handshake fails on it, the server closes)
+	run(stream{Name: "tls:starttls-accepted", Login: false, Model: true, Lined: true, Data: []byte("A001 STARTTLS\r\nA002 NOOP\r\n"), Expect: []expect{e("A001", "OK")}})
+	run(stream{Name: "tls:noop", Login: false, Model: true, Lined: true, Data: []byte("A001 NOOP x\r\nA002 NOOP\r\n"), Expect: []expect{e("A001", "BAD"), e("A002", "OK")}})
+	tlsMode = false
+	if err := restart(); err != nil {
+		return err
+	}
+	baseRSS = c.rssKiB()
+
 	// ---------------------------------------------------------------- 2. truncations of valid commands at every byte
 	valid := []string{
 		"a LOGIN \"us\\\"er\" {4}\r\npass\r\n",
@@ -755,7 +897,17 @@ func runC11(ctx *common.Ctx) error {
 	for i := 0; i < nLines; i++ {
 		login := rng.Chance(0.5)
 		data, exp := genLines(rng, login)
-		run(stream{Name: "lines:random", Login: login, Data: data, Lined: true, Expect: exp, Model: true})
+		st := stream{Name: "lines:random", Login: login, Data: data, Lined: true, Expect: exp, Model: true}
+		if rng.Chance(0.5) { // line by line: every completion has to come without further input
+			st.Lines = bytes.SplitAfter(data, []byte("\r\n"))
+			if n := len(st.Lines); n > 0 && len(st.Lines[n-1]) == 0 {
+				st.Lines = st.Lines[:n-1]
+			}
+			if len(st.Lines) < len(exp) {
+				st.Lines = nil // a line contains a bare CR LF split differently: send in one piece
+			}
+		}
+		run(st)
 	}
 
 	// ---------------------------------------------------------------- 4. garbage (universal oracles + model)
